@@ -84,6 +84,9 @@ std::unique_ptr<AbstractVariableResolver> Parser::parseIdentifierExpression() {
                 const Token &token = *currentToken;
                 advance();
 
+                if (currentToken->type != TokenType::IDENTIFIER)
+                    throw PSC::ExpectedTokenError(*currentToken, "member name");
+
                 resolver = std::make_unique<CompositeResolver>(token, std::move(resolver), *currentToken);
                 advance();
                 break;
